@@ -34,11 +34,17 @@ pub enum XOp {
     DeleteNewestUnexported,
     DeleteFirstExport,
     Gc,
+    /// one more function import carrying the module and field name of the first function import
+    /// (valid wasm), with another signature
+    AddDupImportFunc,
+    /// `replace_imported_func` on the newest imported function: it becomes a local function (with a
+    /// marker prologue of its own) and exactly its import entry goes away
+    ReplaceNewestImportFunc,
 }
 
 pub fn all_ops() -> Vec<XOp> {
     use XOp::*;
-    vec![AddImportFunc, AddLocalFunc, AddImportGlobal, AddLocalGlobal, AddImportTable, AddLocalTable, AddImportMemory, AddLocalMemory, AddData, AddElem, ReRegisterImport(0), ReRegisterImport(1), ReRegisterImport(2), DeleteNewestUnexported, DeleteFirstExport, Gc]
+    vec![AddImportFunc, AddLocalFunc, AddImportGlobal, AddLocalGlobal, AddImportTable, AddLocalTable, AddImportMemory, AddLocalMemory, AddData, AddElem, ReRegisterImport(0), ReRegisterImport(1), ReRegisterImport(2), DeleteNewestUnexported, DeleteFirstExport, Gc, AddDupImportFunc, ReplaceNewestImportFunc]
 }
 
 #[derive(Clone, Copy, Debug, PartialEq, Eq)]
@@ -190,6 +196,35 @@ fn apply_op(o: &mut XObj, op: &XOp) {
             }
         }
         XOp::Gc => walrus::passes::gc::run(&mut o.m),
+        XOp::AddDupImportFunc => {
+            // same names as the first live function import; the physical marker of an import is its
+            // field name, so the duplicate shares the marker of the original (either may sit at either index)
+            let first = o.m.imports.iter().find(|i| matches!(i.kind, ImportKind::Function(_))).map(|i| (i.module.clone(), i.name.clone()));
+            if let Some((module, name)) = first {
+                if let Some(marker) = name.strip_prefix("mk").and_then(|x| x.parse::<u32>().ok()) {
+                    let ty = o.m.types.add(&[ValType::I32], &[]);
+                    let (f, _) = o.m.add_import_func(&module, &name, ty);
+                    o.ents.push(Ent { id: Id::F(f), marker, imported: true, exported: false });
+                }
+            }
+        }
+        XOp::ReplaceNewestImportFunc => {
+            let pos = o.ents.iter().rposition(|e| e.imported && matches!(e.id, Id::F(_)) && live(&o.m, e.id) && import_of(&o.m, e.id).is_some());
+            if let Some(p) = pos {
+                if let Id::F(f) = o.ents[p].id {
+                    o.serial += 1;
+                    let k = o.serial;
+                    if o.m.replace_imported_func(f, |(b, _)| {
+                        b.i32_const(k as i32).drop();
+                    })
+                    .is_ok()
+                    {
+                        o.ents[p].marker = k;
+                        o.ents[p].imported = false;
+                    }
+                }
+            }
+        }
         other => add(o, other, false),
     }
 }
